@@ -34,12 +34,24 @@ pub struct ParentCfg {
     pub sigpipe: Disp,
     /// environment of the parent process (PATH included)
     pub env: Vec<(String, String)>,
+    /// PATH as raw bytes when it is not valid UTF-8 (overrides the PATH entry of `env`)
+    #[serde(default)]
+    pub path_raw: Option<Vec<u8>>,
 }
 
 #[derive(Serialize, Deserialize, Clone, Debug)]
 pub struct FsEntry {
     pub path: String,
     pub node: Node,
+    /// the path as raw bytes when it is not valid UTF-8 (overrides `path`)
+    #[serde(default)]
+    pub raw: Option<Vec<u8>>,
+}
+
+impl FsEntry {
+    pub fn bytes(&self) -> Vec<u8> {
+        self.raw.clone().unwrap_or_else(|| self.path.as_bytes().to_vec())
+    }
 }
 
 #[derive(Serialize, Deserialize, Clone, Debug)]
@@ -97,6 +109,7 @@ pub fn default_parent() -> ParentCfg {
         sigmask: 0,
         sigpipe: Disp::Ignore,
         env: vec![("PATH".into(), "/bin".into()), ("HOME".into(), "/work".into()), ("LANG".into(), "C".into())],
+        path_raw: None,
     }
 }
 
@@ -156,12 +169,22 @@ pub fn gen_plan(prop: &str, base_seed: u64, index: u64) -> Plan {
     plan
 }
 
+impl ParentCfg {
+    /// the parent's PATH as the library will see it
+    pub fn path_bytes(&self) -> Option<Vec<u8>> {
+        if let Some(r) = &self.path_raw {
+            return Some(r.clone());
+        }
+        self.env.iter().find(|(k, _)| k == "PATH").map(|(_, v)| v.as_bytes().to_vec())
+    }
+}
+
 impl Plan {
     /// register program `ops` under /bin/<name>; returns the program id
     pub fn add_program(&mut self, name: &str, ops: Vec<Op>) -> usize {
         self.programs.push(ops);
         let id = self.programs.len() - 1;
-        self.fs.push(FsEntry { path: format!("/bin/{}", name), node: Node::Exe { prog: id } });
+        self.fs.push(FsEntry { path: format!("/bin/{}", name), node: Node::Exe { prog: id }, raw: None });
         id
     }
 }
